@@ -296,6 +296,7 @@ impl Run {
         let mut violations = 0;
         let mut known_hits = Vec::new();
         let mut lines = Vec::new();
+        let mut irreproducible: Vec<String> = Vec::new();
         for f in &g.failures {
             let r1 = catch(|| replay(&f.kind, &f.case));
             let r2 = catch(|| replay(&f.kind, &f.case));
@@ -306,10 +307,15 @@ impl Run {
             };
             let (m1, m2) = (norm(&r1), norm(&r2));
             if m1 != m2 || m1.is_none() {
-                machinery_error(&format!(
-                    "{}: failing case does not reproduce deterministically (key {}): first={:?} replay1={:?} replay2={:?}",
+                // Not trusted, so never a verdict. If other failures of this run do reproduce the run
+                // still reports those (exit 1); a run whose only failures are irreproducible is a
+                // machinery error (exit 2, below).
+                eprintln!(
+                    "MACHINERY-WARNING: {}: failing case does not reproduce deterministically and is not reported as a violation (key {}): first={:?} replay1={:?} replay2={:?}",
                     self.prop, f.key, f.msg, m1, m2
-                ));
+                );
+                irreproducible.push(f.key.clone());
+                continue;
             }
             if let Some(what) = known.matches(&self.prop, &f.key) {
                 lines.push(format!("KNOWN-FINDING: property={} {} [{}]", self.prop, what, f.key));
@@ -326,8 +332,14 @@ impl Run {
             lines.push(format!("VIOLATION property={} replay={}", self.prop, path.display()));
             eprintln!("  {} :: {}", f.key, m1.unwrap_or_default());
         }
+        if !irreproducible.is_empty() && violations == 0 {
+            machinery_error(&format!("{}: {} failing case(s) did not reproduce deterministically and none did (first key {})", self.prop, irreproducible.len(), irreproducible[0]));
+        }
         let distinct = g.nontrivial.len() as u64 + g.nontrivial_extra;
         let mut cov = serde_json::Map::new();
+        if !irreproducible.is_empty() {
+            cov.insert("irreproducible_failures_not_reported".into(), json!(irreproducible));
+        }
         cov.insert("evaluations".into(), json!(g.evaluations));
         cov.insert("distinct_nontrivial".into(), json!(distinct));
         cov.insert("rule".into(), json!(self.rule.into_inner().unwrap()));
